@@ -5,6 +5,8 @@ import Enc.Props.C07
 import Enc.Props.C12
 import Enc.Props.C16
 import Enc.Props.C18
+import Enc.Props.C05
+import Enc.Driver.Json
 import Enc.Props.C04
 import Enc.Props.C08
 import Enc.Props.C13
